@@ -138,11 +138,33 @@ FDate(r) ==
      \cup (IF r.res.t \notin {"p", "ce"} /\ ok /\ ~(IsW(r.res) /\ r.res.v = UnixSecsAt(r.y, r.mo, r.d, r.hh, r.mi, r.ss, r.off)) THEN mk("unix-seconds") ELSE {})
      \cup (IF r.res.t \notin {"p", "ce"} /\ ~ok /\ ~IsE(r.res) THEN mk("unparsable-accepted") ELSE {})
 
+\* ---------------------------------------------------------------- integer literals at the edge of int64 (C18, C01)
+\* An integer literal denotes the number written; a literal outside int64 denotes no value of the engine and must not
+\* compile (wrapped modulo 2^64 it would make `(= 18446744073709551617 1)` true).  Decided on the digits.
+MaxDigits == <<9, 2, 2, 3, 3, 7, 2, 0, 3, 6, 8, 5, 4, 7, 7, 5, 8, 0, 7>>    \* 2^63 - 1
+RECURSIVE StripZeros(_)
+StripZeros(ds) == IF Len(ds) > 1 /\ ds[1] = 0 THEN StripZeros(Tail(ds)) ELSE ds
+RECURSIVE DigitsLe(_, _, _)
+DigitsLe(a, b, i) == IF i > Len(a) THEN TRUE ELSE IF a[i] < b[i] THEN TRUE ELSE IF a[i] > b[i] THEN FALSE ELSE DigitsLe(a, b, i + 1)
+FitsInt64(neg, ds0) ==
+  LET ds == StripZeros(ds0)
+      lim == IF neg THEN [MaxDigits EXCEPT ![19] = 8] ELSE MaxDigits IN
+  Len(ds) < 19 \/ (Len(ds) = 19 /\ DigitsLe(ds, lim, 1))
+FBigLit(r) ==
+  {f \in {<<"C18", r.id, k, 0, sig>> : k \in Idx(r.outs), sig \in {"panic", "literal-outside-int64-accepted", "int64-literal-rejected", "literal-value"}} :
+     LET o == r.outs[f[3]]  fits == FitsInt64(r.neg, r.digits) IN
+     CASE f[5] = "panic" -> o.cout = "panic"
+       [] f[5] = "literal-outside-int64-accepted" -> o.cout = "ok" /\ ~fits
+       [] f[5] = "int64-literal-rejected" -> o.cout = "ce" /\ fits
+       \* a literal that fits equals itself and, compared with 1, is 1 exactly when its digits say so
+       [] f[5] = "literal-value" -> o.cout = "ok" /\ fits /\ o.how = "eq1" /\
+                                    ~(o.res.t = "b" /\ o.res.v = (StripZeros(r.digits) = <<1>> /\ ~r.neg))}
+
 Findings(r) ==
   CASE r.kind = "call" -> FCall(r) [] r.kind = "divmod" -> FDivMod(r) [] r.kind = "fold" -> FFold(r)
     [] r.kind = "tryalias" -> FTryAlias(r)
     [] r.kind = "overlap" -> FOverlap(r) [] r.kind = "in" -> FIn(r)
-    [] r.kind = "ver" -> FVer(r) [] r.kind = "date" -> FDate(r) [] OTHER -> {}
+    [] r.kind = "ver" -> FVer(r) [] r.kind = "date" -> FDate(r) [] r.kind = "biglit" -> FBigLit(r) [] OTHER -> {}
 Known(r) == CASE r.kind = "call" -> KCall(r) [] r.kind = "overlap" -> KOverlap(r) [] OTHER -> {}
 KnownId(r) == IF r.kind = "call" THEN "F-C18-1" ELSE "F-C17-1"
 NonTriv(r) ==
@@ -153,9 +175,9 @@ NonTriv(r) ==
                              THEN 2 * Len(r.outs) ELSE 0
     [] r.kind = "in" -> Len(r.outs)
     [] r.kind = "tryalias" -> Len(r.outs)
-    [] r.kind = "ver" -> 1 [] r.kind = "date" -> 1 [] OTHER -> 0
+    [] r.kind = "ver" -> 1 [] r.kind = "date" -> 1 [] r.kind = "biglit" -> Len(r.outs) [] OTHER -> 0
 Judged(r) ==
-  CASE r.kind \in {"call", "in", "tryalias"} -> Len(r.outs) [] r.kind = "overlap" -> 2 * Len(r.outs) [] OTHER -> 1
+  CASE r.kind \in {"call", "in", "tryalias", "biglit"} -> Len(r.outs) [] r.kind = "overlap" -> 2 * Len(r.outs) [] OTHER -> 1
 
 Init == l = 1 /\ judged = 0 /\ nontriv = 0 /\ skipped = 0 /\ drift = 0 /\ found = 0
 Next ==
